@@ -17,7 +17,9 @@ from vf.engines import sx
 
 LEVEL = 'model_checking'
 
+L2P = {}          # label -> primary key of the execution being judged (auto-pk models)
 def pk_of(label):
+    if label in L2P: return L2P[label]
     k = label.split(':')[1]
     return int(k) if ',' not in k else tuple(int(i) for i in k.split(','))
 
@@ -84,21 +86,27 @@ def worker(args):
     sub = core.Sub()
     env = sx.Env(catalog.by_name(name))
     rel = name.split('-')[0]
-    ops = [op for op in env.ops() if op[0] in ('create', 'set', 'setm', 'add', 'remove', 'delete', 'clear', 'assign', 'flush', 'commit')]
+    ops = [op for op in env.ops() if op[0] in ('create', 'set', 'setm', 'add', 'remove', 'delete', 'clear', 'assign', 'flush', 'commit')] \
+          + [r for r in env.shaping_reads() if r[0] in ('r_citer', 'r_attr')]
     ex = sx.Explorer(env, fixtures=(fixture,), ops=ops)
     labels = [l for root in env.root_entities for l in env.labels_of(root, (1, 2, 3))]
     def on_state(env_, fx, hist):
         if sx.latent_conflict(fixture, hist): return
-        if env.model.opts.get('pk') == 'auto': return
         tw = env.run(list(hist) + [('view',)], fixture, record_sql=False)
         if tw.skipped or tw.obs[-1][0] != 'ok': return
         view = tw.obs[-1][1]
+        L2P.clear(); L2P.update(tw.label2pk)
         # (a) dictionaries
-        for l in labels:
-            if l not in view: continue
+        for l in sorted(view):
             x = env.run(list(hist) + [('todicts', l)], fixture, record_sql=False)
-            if x.skipped or x.obs[-1][0] != 'ok':
-                sub.count('todict_not_ok'); continue
+            if x.skipped: continue
+            if x.obs[-1][0] != 'ok':
+                # the twin could read the whole session, so serialising one of its objects must not fail
+                sub.count('todict_not_ok')
+                if x.obs[-1][1] not in ('TransactionIntegrityError', 'IntegrityError', 'UnresolvableCyclicDependency'):
+                    sub.violation('%s|%s|to_dict-raises-%s' % (rel, sx.kinds(hist) or '-', x.obs[-1][1]),
+                                  dict(model=name, fixture=fixture, history=hist, label=l), 'serialising %s raised %s after %r' % (l, x.obs[-1][1], hist))
+                continue
             sub.count('todict_objects')
             bad = check_todicts(env, view, l, x.obs[-1][1])
             for b in bad:
@@ -118,6 +126,9 @@ def worker(args):
                 qblob = {}
                 for root in env.root_entities:
                     qblob[root] = pickle.dumps(env.E[root].select()[:])
+                    # lazy results that have not been fetched yet must pickle their rows, not None
+                    qblob[root + '/page'] = pickle.dumps(env.E[root].select().order_by(1).page(1, 10))
+                    qblob[root + '/limit'] = pickle.dumps(env.E[root].select().order_by(1).limit(10))
                 cblob = {}
                 for l in v1:
                     o = x.resolve(l)
@@ -132,6 +143,7 @@ def worker(args):
             for l, blob in blobs.items():
                 o = pickle.loads(blob)
                 e = env.E[l.split(':')[0]]
+                L2P.clear(); L2P.update(x.label2pk)
                 same = e[pk_of(l)] is o
                 vals = {'__class__': type(o).__name__}
                 for a in type(o)._attrs_:
@@ -147,8 +159,12 @@ def worker(args):
                                   dict(model=name, fixture=fixture, history=hist, label=l, pickled=v1[l], unpickled=vals),
                                   'unpickled %s differs in %s' % (l, diff))
             for root, blob in qblob.items():
-                got = sorted(x.cv(list(pickle.loads(blob))))
-                exp = sorted(l for l in v1 if l.startswith(root + ':'))
+                try: got = sorted(x.cv(list(pickle.loads(blob))))
+                except Exception as e:
+                    sub.violation('%s|unpickled-query-result-raises-%s' % (root.split('/')[-1] if '/' in root else 'fetched', type(e).__name__),
+                                  dict(model=name, fixture=fixture, history=hist, what=root), 'using an unpickled query result raised %r' % e)
+                    continue
+                exp = sorted(l for l in v1 if l.startswith(root.split('/')[0] + ':'))
                 if got != exp:
                     sub.violation('%s|%s|unpickled-query-result-differs' % (rel, sx.kinds(hist) or '-'),
                                   dict(model=name, fixture=fixture, history=hist, got=got, expected=exp), 'query result')
@@ -158,7 +174,7 @@ def worker(args):
                     sub.violation('%s|%s|unpickled-collection-differs' % (rel, sx.kinds(hist) or '-'),
                                   dict(model=name, fixture=fixture, history=hist, label=l, attr=an, got=got, expected=v1[l][an]), 'collection')
         finally: x.finish()
-    ex.run(1 if tier == 'quick' else 2, None, order=sx.seeded_order(seed), on_state=on_state)
+    ex.run(2 if (tier != 'quick' or env.model.opts.get('pk') == 'auto') else 1, None, order=sx.seeded_order(seed), on_state=on_state)
     env.close()
     for s in ex.samples: sub.sample(s)
     return dict(sub=sub.dump(), states=ex.states, transitions=ex.transitions, executions=ex.executions)
@@ -193,14 +209,14 @@ def composite_keys(ctx):
     return len(keys)
 
 def run(ctx):
-    agg = sx.run_catalogue(ctx, worker, tier='quick')
+    agg = sx.run_catalogue(ctx, worker, tier='thorough')
     nkeys = composite_keys(ctx)
     c = ctx.counters
     ctx.guard('objects serialised', c.get('todict_objects', 0), 500)
     ctx.guard('objects unpickled in a new session', c.get('unpickled_objects', 0), 500)
     ctx.guard('composite keys encoded', c.get('composite_keys_encoded', 0), 1000)
     ctx.cov['bounds'] = 'states of depth <= %d from both fixtures x every universe object x 12 to_dict option combinations + Bag + to_json; pickling of every object, collection and entity scan; %d composite keys' % (1 if ctx.quick else 2, nkeys)
-    ctx.assume('SQLite only; auto-pk model skipped for the dictionary comparison (labels are not keys there)')
+    ctx.assume('SQLite only')
     return dict(states=agg['states'], transitions=agg['transitions'],
                 traces_validated_against_impl=agg['executions'] + c.get('todict_objects', 0) + c.get('pickle_states', 0))
 
